@@ -1059,4 +1059,4 @@ class StrictUndefined(Undefined):
     __slots__ = ()
     __iter__ = __str__ = __len__ = Undefined._fail_with_undefined_error
     __eq__ = __ne__ = __bool__ = __hash__ = Undefined._fail_with_undefined_error
-    __contains__ = Undefined._fail_with_undefined_error
+    __contains__ = __aiter__ = Undefined._fail_with_undefined_error
